@@ -290,10 +290,10 @@ class HessianMatrix:
                     index_i_1 = index_i_0 + self.ndim
                     index_j_0 = j * self.ndim
                     index_j_1 = index_j_0 + self.ndim
-                    # for i-i pair
+                    # for i-i pair (mass weighting of a diagonal block is 1 / m_i)
                     hessian_matrix[index_i_0:index_i_1,
                                    index_i_0:index_i_1] += dudr2i * prefactor[itype,
-                                                                              jtype]
+                                                                              itype]
                     # for i-j pair
                     hessian_matrix[index_i_0:index_i_1,
                                    index_j_0:index_j_1] = dudr2j * prefactor[itype,
